@@ -19,7 +19,7 @@ RULE = ("a case = a simulated network of 1..4 hosts, each listening on 6445 or 2
         "reply built by the reference (48-bit id, port, serial number, name net_<type>_<suffix>, reported IP equal to or different from "
         "the source); discover_single is called with the dotted address or with a host name that resolves to the host; name and trailer lengths cover every residue of the payload length modulo 16. Oracle: Discover.discover()/discover_single() returns exactly one device per host with id, port, sn, name, type "
         "(from the name), version as encoded and ip = the datagram's source address; class AirConditioner iff type 0xAC, else generic "
-        "Device; with auto_connect a V2 air conditioner is refreshed over TCP at the advertised port. Exhaustive: all 256 type bytes in "
+        "Device; with auto_connect a V2 air conditioner is refreshed over TCP at the advertised port. discovery_packets in {1,2,3,5} and timeout in {1,5} with one host on each port; 2-4 discover_single calls (and optionally a broadcast discovery) in flight at overlapping times. Exhaustive: all 256 type bytes in "
         "both hex cases, boundary ids and ports, both versions, both listening ports. distinct = (reply fields); all non-trivial")
 ASSUMPTIONS = ["a real device ignores header filler of the probe but not its length field, type bytes, signature or payload",
                "serial numbers and names are ASCII"]
@@ -77,6 +77,21 @@ def generate(ctx, rng):
                 suffix = "".join(rng.choice("0123456789ABCDEF") for _ in range(nlen))
                 yield ("namelen", nlen, tail, version), {"mode": "broadcast", "auto": False,
                       "hosts": [_host(rng, "10.6.0.%d" % (1 + n % 200), suffix=suffix, tail=rng.randbytes(tail), version=version)]}
+    # the optional arguments: number of probes per port, listening window
+    for pk in (1, 2, 5):
+        for listen in (6445, 20086):
+            for version in (2, 3):
+                for tmo in (1, 5):
+                    n += 1
+                    yield ("packets", pk, listen, version, tmo), {"mode": "broadcast", "auto": False, "packets": pk, "timeout": tmo,
+                          "hosts": [_host(rng, "10.7.0.%d" % (1 + n % 200), listen=listen, version=version),
+                                    _host(rng, "10.7.1.%d" % (1 + n % 200), listen=26531 - listen, version=5 - version)]}
+    # several discoveries in flight at the same time (an application looking for its configured devices in parallel)
+    for j in range(60 if quick else 2500):
+        k = rng.randint(2, 4)
+        hosts = [_host(rng, "10.8.%d.%d" % (j % 200, i + 1), dups=1) for i in range(k)]
+        yield ("overlap", j), {"mode": "overlap", "auto": False, "hosts": hosts, "starts": [rng.choice([0.0, 0.0, 0.02, 0.3, 1.0]) for _ in range(k)],
+                               "also_broadcast": j % 3 == 0}
     for j in range(80 if quick else 2000):
         h = _host(rng, "10.4.0.%d" % (1 + j % 200), version=2, type=rng.choice([0xAC, 0xAC, 0xA1]), port=rng.choice([6444, 7000]))
         yield ("auto", j), {"mode": rng.choice(["broadcast", "single"]), "auto": True, "hosts": [h]}
@@ -99,22 +114,58 @@ def run_case(ctx, case):
         payload = D.build_payload(h["reported_ip"], h["port"], h["sn"].encode(), _name(h).encode(), bytes(h["tail"]))
         reply = D.build_reply(h["version"], h["id"], payload)
         replies = [(0.05 * (i + 1) + 0.3 * d, None, reply) for d in range(h["dups"])]
-        sims.append(SimHost(net, h["ip"], h["listen"], replies, names=([target] if (target and i == 0) else ())))
+        sims.append(SimHost(net, h["ip"], h["listen"], replies, names=([target] if (target and i == 0) else ()),
+                            answer_every=case["mode"] == "overlap"))     # several askers: the device answers each of them
         if case["auto"]:
             tcp[h["ip"]] = SimDevice(net, host=h["ip"], port=h["port"], version=2, device_id=h["id"], ac=ACModel({"target_temperature": 26.5, "power": True}))
 
+    kw = {}
+    if case.get("packets") is not None:
+        kw["discovery_packets"] = case["packets"]
+    if case.get("timeout") is not None:
+        kw["timeout"] = case["timeout"]
+
     async def go(loop):
+        if case["mode"] == "overlap":
+            import asyncio
+
+            async def single(h, start):
+                await asyncio.sleep(start)
+                return await Discover.discover_single(h["ip"], auto_connect=False)
+
+            jobs = [single(h, st) for h, st in zip(hosts, case["starts"])]
+            if case.get("also_broadcast"):
+                jobs.append(Discover.discover(auto_connect=False))
+            return await asyncio.gather(*jobs)
         if case["mode"] == "single":
             dev = await Discover.discover_single(target or hosts[0]["ip"], auto_connect=case["auto"])
             return [dev] if dev is not None else []
-        return await Discover.discover(auto_connect=case["auto"])
+        return await Discover.discover(auto_connect=case["auto"], **kw)
 
-    key = ("c17", case["mode"], case["auto"], case.get("target"), tuple((h["ip"], h["version"], h["id"], h["port"], h["sn"], _name(h), h["listen"]) for h in hosts))
+    key = ("c17", case["mode"], case["auto"], case.get("target"), case.get("packets"), case.get("timeout"), tuple(case.get("starts") or ()), tuple((h["ip"], h["version"], h["id"], h["port"], h["sn"], _name(h), h["listen"]) for h in hosts))
     try:
         devs, loop = H.run_virtual(go, net)
     except Exception as e:  # noqa: BLE001
         ctx.count(key, kind="discover-raised")
         ctx.violation(f"discover-raises/{type(e).__name__}", f"{type(e).__name__}: {e}", case)
+        return
+    if case["mode"] == "overlap":
+        # one result per discover_single, in order; each must be its own host
+        results = devs
+        ctx.count(key, kind="discover-overlapping", sample={"starts": case["starts"], "hosts": len(hosts), "also_broadcast": bool(case.get("also_broadcast"))})
+        for h, d in zip(hosts, results):
+            if d is None:
+                ctx.violation("device-count", f"discover_single({h['ip']}) running next to other discoveries found nothing", case)
+                continue
+            exp = {"id": h["id"], "port": h["port"], "sn": h["sn"], "name": _name(h), "type": h["type"], "version": h["version"], "ip": h["ip"]}
+            act = {"id": d.id, "port": d.port, "sn": d.sn, "name": d.name, "type": int(d.type), "version": d.version, "ip": d.ip}
+            diff = {k: (exp[k], act[k]) for k in exp if exp[k] != act[k]}
+            if diff:
+                ctx.violation(f"identity/{sorted(diff)[0]}", f"discover_single({h['ip']}) running next to other discoveries reported {diff}", case)
+        if case.get("also_broadcast"):
+            ips = sorted(d.ip for d in results[-1])
+            if ips != sorted(h["ip"] for h in hosts):
+                ctx.violation("device-count", f"broadcast discovery running next to single-host discoveries reported {ips}", case)
         return
     expect_hosts = hosts[:1] if case["mode"] == "single" else hosts
     ctx.count(key, kind=f"discover-{case['mode']}", sample={"hosts": [{k: v for k, v in h.items() if k != "tail"} for h in hosts]} if len(hosts) > 1 else None)
